@@ -17,20 +17,23 @@ Lemma bridge_k_process a b c d s :
   byte a -> byte b -> byte c -> byte d -> 1 <= s <= 12 ->
   k_process a b c d s = Ok (process a b c d s).
 Proof.
-  unfold byte. intros Ha Hb Hc Hd Hs. unfold k_process. kstep. cbv zeta. cbn [fst snd].
-  do 6 kstep.
-  match goal with |- context [k_up_down_ramp ?x s] =>
-    rewrite (bridge_k_up_down_ramp x s) by lia;
-    pose proof (ramp_bound x s ltac:(lia)) as Hr; rewrite <- ramp_eq in Hr end.
-  kstep. do 3 kstep.
-  match goal with |- context [k_clipd1 ?x ?l] =>
-    rewrite (bridge_k_clipd1 x l) by lia;
-    assert (Hc1 : Z.abs (clipd1 x l) <= Z.abs x) by (unfold clipd1, clamp; lia) end.
-  kstep. ksteps.
+  unfold byte. intros Ha Hb Hc Hd Hs. unfold k_process.
+  (* the checked steps in whatever order the source has them; the two calls are replaced by their bridged values, each
+     with the range fact the later steps need *)
+  repeat (cbv zeta; cbn [fst snd]; first
+    [ match goal with |- context [k_up_down_ramp ?x s] =>
+        rewrite (bridge_k_up_down_ramp x s) by lia;
+        let Hr := fresh "Hr" in pose proof (ramp_bound x s ltac:(lia)) as Hr; rewrite <- ramp_eq in Hr end
+    | match goal with |- context [k_clipd1 ?x ?l] =>
+        rewrite (bridge_k_clipd1 x l) by lia;
+        let Hc1 := fresh "Hc1" in assert (Hc1 : Z.abs (clipd1 x l) <= Z.abs x) by (unfold clipd1, clamp; lia) end
+    | kstep ]).
   subst. unfold process, tdiv. rewrite !wrap_u8_eq.
   assert (Hb8 : forall z, 0 <= z <= 255 -> wrap_u8 z = z) by (intros; unfold wrap_u8; rewrite Z.mod_small; lia).
-  rewrite (Hb8 (clamp 0 255 _)) by (unfold clamp; lia).
-  rewrite (Hb8 (clamp 0 255 _)) by (unfold clamp; lia).
+  (* the two inner samples are clipped to 0..255 before the cast, as clamp or as max/min *)
+  repeat match goal with |- context [wrap_u8 (clamp 0 255 ?z)] => rewrite (Hb8 (clamp 0 255 z)) by (unfold clamp; lia) end.
+  repeat match goal with |- context [wrap_u8 (Z.min (Z.max ?z 0) 255)] =>
+           rewrite (Hb8 (Z.min (Z.max z 0) 255)) by lia; replace (Z.min (Z.max z 0) 255) with (clamp 0 255 z) by (unfold clamp; lia) end.
   reflexivity.
 Qed.
 
